@@ -710,11 +710,25 @@ def _p_ms_builder(tier):
     return out
 
 
+def h_graftap_key(c, pkg, flag, allowed):
+    """graftap key path (the lock and witness builders of the graftap family; the arithmetic is C05's)"""
+    from .c05 import h_graftap
+    return h_graftap(c, pkg, flag, allowed)
+
+
+def r_graftap_key(inputs, params, obligation):
+    from .c05 import r_graftap
+    return r_graftap(inputs, params, obligation)
+
+
 HARNESSES = [
     HarnessSpec('complete', h_complete, _p_complete, witness_replay=True, replay=r_complete, signature=_sig),
     HarnessSpec('exact_single', h_exact_single, _p_exact_single, replay=r_exact, signature=_sig),
     HarnessSpec('exact_scripthash', h_exact_scripthash, _p_exact_sh, replay=r_exact, signature=_sig),
     HarnessSpec('exact_graftroot', h_exact_graftroot, _p_exact_g, replay=r_exact, signature=_sig),
+    HarnessSpec('graftap_key', h_graftap_key, lambda t: [{'flag': f, 'allowed': a} for f, a in ((0, 0), (1, 3), (0x80, 0x80), (0xc1, 0xff)) +
+                                                         (((4, 3), (0x40, 0x40)) if t != 'quick' else ())],
+                replay=r_graftap_key, signature=_sig, fallback=lambda params, rng: {'seed': rng.randbytes(32), 'm': rng.randbytes(2)}),
     HarnessSpec('multisig_lock', h_multisig_lock, _p_ms_lock, witness_replay=True, witness_every=25, replay=r_multisig_lock, signature=_sig),
     HarnessSpec('multisig_builder', h_multisig_builder, _p_ms_builder, witness_replay=True, replay=r_multisig_builder, signature=_sig),
 ]
